@@ -84,6 +84,56 @@ func c05Enc(c *Ctx, w int, v uint64) {
 	}
 }
 
+// c05NestWriter is a writer that itself writes a VarInt/VarLong (a length prefix, say) through the same
+// package-level encoder while the outer WriteTo is inside its Write call: any scratch space the encoders share
+// (a package buffer, a pool entry released too early) shows as corrupted outer bytes.
+type c05NestWriter struct {
+	out   *bytes.Buffer
+	w     int
+	inner uint64
+}
+
+func (n c05NestWriter) Write(p []byte) (int, error) {
+	if n.w == 32 {
+		if _, err := pk.VarInt(int32(uint32(n.inner))).WriteTo(n.out); err != nil {
+			return 0, err
+		}
+	} else {
+		if _, err := pk.VarLong(int64(n.inner)).WriteTo(n.out); err != nil {
+			return 0, err
+		}
+	}
+	return n.out.Write(p)
+}
+
+// c05Nest: outer.WriteTo(w) where w.Write first writes `inner` with the same encoder into the same buffer.
+func c05Nest(c *Ctx, w int, outer, inner uint64) {
+	var out bytes.Buffer
+	var obs string
+	p, _ := guard(func() {
+		var n int64
+		var err error
+		nw := c05NestWriter{&out, w, inner}
+		if w == 32 {
+			n, err = pk.VarInt(int32(uint32(outer))).WriteTo(nw)
+		} else {
+			n, err = pk.VarLong(int64(outer)).WriteTo(nw)
+		}
+		obs = fmt.Sprintf("%s wn=%d", hx(out.Bytes()), n)
+		if err != nil {
+			obs += " err"
+		}
+	})
+	if p {
+		obs = "panic"
+	}
+	if w == 32 {
+		c.Emit("varint.nest", []string{fmt.Sprintf("%08x", uint32(outer)), fmt.Sprintf("%08x", uint32(inner))}, obs)
+	} else {
+		c.Emit("varlong.nest", []string{fmt.Sprintf("%016x", outer), fmt.Sprintf("%016x", inner)}, obs)
+	}
+}
+
 func c05Dec(c *Ctx, w int, input []byte, kind string) {
 	br := bytes.NewReader(input)
 	var r io.Reader = br
@@ -133,6 +183,14 @@ func replayC05(c *Ctx, op string, args []string) bool {
 			w = 64
 		}
 		c05Enc(c, w, v)
+	case "varint.nest", "varlong.nest":
+		o, _ := strconv.ParseUint(args[0], 16, 64)
+		i, _ := strconv.ParseUint(args[1], 16, 64)
+		w := 32
+		if op == "varlong.nest" {
+			w = 64
+		}
+		c05Nest(c, w, o, i)
 	case "varint.dec", "varlong.dec":
 		w := 32
 		if op == "varlong.dec" {
@@ -182,6 +240,17 @@ func genC05(c *Ctx) {
 			v := c.R.Uint64()
 			// spread over magnitudes
 			add(v >> uint(c.R.Intn(w)))
+		}
+	}
+	// re-entrant writers: the writer handed to WriteTo writes another value with the same encoder first
+	for _, w := range []int{32, 64} {
+		for i := 0; i < c.N(3000, 200000); i++ {
+			o := c.R.Uint64() >> uint(c.R.Intn(64))
+			in := c.R.Uint64() >> uint(c.R.Intn(64))
+			if w == 32 {
+				o, in = o&0xffffffff, in&0xffffffff
+			}
+			c05Nest(c, w, o, in)
 		}
 	}
 	// decoders: exhaustive short inputs
